@@ -11,6 +11,7 @@ From Qryn Require Import model.Ingest model.PushHandler model.IngestSpec model.I
 From Qryn Require model.SeriesIndex proofs.PushReadIndex.
 From Qryn Require Import model.IngestSwap2 proofs.IngestSwap2Proofs.
 From Qryn Require proofs.IngestBatchIndep.
+From Qryn Require proofs.IngestBatchIndepSys.
 From Qryn Require model.PromiseHB proofs.PromiseHBProofs.
 Import ListNotations.
 
@@ -534,3 +535,67 @@ Theorem skipping_queued_rows_is_not_the_model :
        exists s', IngestBatchIndep.sstep_skip s (SRequest p r sz) = Some (s', []) /\ results s' = results s ++ [(p, r)]).
 Proof. exact IngestBatchIndep.skipping_queued_rows_is_not_the_model. Qed.
 Print Assumptions skipping_queued_rows_is_not_the_model.
+
+(* Round 8x: the same for the WHOLE system and for every history (proofs/IngestBatchIndepSys.v).  The table of queued series rows of the seeded
+   change C01-h is shared by all workers of the service: a request is then answered by what sits in ANOTHER worker's batch.  In the model, in
+   every system state (any number of workers and round robins, whatever their batches, portions in flight, the promise store and the handlers
+   hold), a request with rows served by worker s completes no promise (the only event is the call, `imm = None`; the store is unchanged), what
+   worker s does with it is `sstep` of s's OWN state and the request, and no other worker is touched.
+   Example IngestBatchIndepSys.waits_hypotheses_met (row 1 queued in worker 0, requested again on worker 1 of the same round robin). *)
+Theorem a_request_with_rows_waits_whatever_is_queued_elsewhere : forall g s sv n r sz r',
+  nth_error (svcs g) s = Some sv ->
+  running sv = true ->
+  rr_pick_ok g s = true ->
+  eff (kd sv) r = Some r' ->
+  nth (keycol (kd sv)) r' [] <> [] ->
+  exists sv' g',
+    gstep g (GEnvReq s (kd sv) n r sz) = Some (g', [EReq s (PEnv n) (kd sv) r sz None]) /\
+    sstep sv (SRequest (PEnv n) r sz) = Some (sv', []) /\
+    nth_error (svcs g') s = Some sv' /\
+    results sv' = results sv ++ [(PEnv n, r)] /\ cols sv' = zip_app (cols sv) r' /\ inflight sv' = inflight sv /\
+    (forall t, t <> s -> nth_error (svcs g') t = nth_error (svcs g) t) /\
+    store g' = store g /\ hs g' = hs g.
+Proof. exact IngestBatchIndepSys.a_request_with_rows_waits_whatever_is_queued_elsewhere. Qed.
+Print Assumptions a_request_with_rows_waits_whatever_is_queued_elsewhere.
+
+(* ... and for an attempt of a sub-push of an HTTP handler (doPush calling Request on the worker the round robin picked): the attempt is
+   registered, the goroutine is blocked in Get() on a promise that nothing has completed.  Example IngestBatchIndepSys.attempt_hypotheses_met. *)
+Theorem an_attempt_with_rows_waits_whatever_is_queued_elsewhere : forall g h i s hd sp sv r',
+  nth_error (hs g) h = Some hd -> nth_error (h_subs hd) i = Some sp ->
+  sp_result sp = None -> sp_cur sp = None -> N.ltb (sp_used sp) (attempts g) = true -> may_take g s sp = true ->
+  nth_error (svcs g) s = Some sv -> running sv = true ->
+  eff (kd sv) (sp_req sp) = Some r' -> nth (keycol (kd sv)) r' [] <> [] ->
+  exists sv' g',
+    gstep g (GSubReq h i s) = Some (g', [EReq s (PSub h i (sp_used sp)) (kd sv) (sp_req sp) (sp_sz sp) None]) /\
+    sstep sv (SRequest (PSub h i (sp_used sp)) (sp_req sp) (sp_sz sp)) = Some (sv', []) /\
+    svcs g' = upd s sv' (svcs g) /\
+    results sv' = results sv ++ [(PSub h i (sp_used sp), sp_req sp)] /\ cols sv' = zip_app (cols sv) r' /\
+    store g' = store g /\
+    (exists hd' sp', nth_error (hs g') h = Some hd' /\ nth_error (h_subs hd') i = Some sp' /\
+                     sp_cur sp' = Some (sp_used sp) /\ sp_result sp' = None /\
+                     lookup_store (PSub h i (sp_used sp)) (store g') = lookup_store (PSub h i (sp_used sp)) (store g)).
+Proof. exact IngestBatchIndepSys.an_attempt_with_rows_waits_whatever_is_queued_elsewhere. Qed.
+Print Assumptions an_attempt_with_rows_waits_whatever_is_queued_elsewhere.
+
+(* Every history from EVERY state (reachable or not; any actions: requests, flushes, dials, Do outcomes, Stop, pings, pushes, retries): if the
+   log says that `Request` itself completed a promise with success, the request carried no row (its key column after ProcessRequest is empty).
+   A request with a row is acknowledged only through the release of a block.  Example request_acknowledges_an_empty_request (the premise occurs). *)
+Theorem request_never_acknowledges_rows_by_itself : forall tr g g' es s p k r sz r',
+  grun g tr = Some (g', es) ->
+  In (EReq s p k r sz (Some true)) es ->
+  eff k r = Some r' ->
+  nth (keycol k) r' [] = [].
+Proof. exact IngestBatchIndepSys.request_never_acknowledges_rows_by_itself. Qed.
+Print Assumptions request_never_acknowledges_rows_by_itself.
+
+(* The variant with ONE table of queued rows for all workers of a service (`gstep_shared_skip`: a series request all of whose rows are queued in
+   some worker of the round robin is completed with success by Request) violates ack_sound: two workers, row 1 queued in worker 0, requested
+   again on worker 1 and acknowledged at once, worker 0's INSERT refused (Example shared_skip_answers_for_another_workers_batch, which also runs
+   the unchanged system on the same actions).  On the real services: harness `ingest --samerows`, the scripts of class samerows+parallel. *)
+Theorem ack_sound_shared_queue_table_refuted :
+  ~ (forall cfg n tr g es,
+       forallb act_wf tr = true ->
+       IngestBatchIndepSys.grun_shared_skip (ginit cfg n) tr = Some (g, es) ->
+       run_mon (amon_step true) (amon_init (length cfg)) es <> None).
+Proof. exact IngestBatchIndepSys.ack_sound_shared_queue_table_refuted. Qed.
+Print Assumptions ack_sound_shared_queue_table_refuted.
